@@ -348,9 +348,12 @@ def subject(case):
         if di not in stale_memo:
             e1 = apply_op(xmlschema, make_schema(xmlschema, case['version']), 'iter_errors', docs[di], 0)
             e2 = apply_op(xmlschema, preloaded(), 'iter_errors', docs[di], 0)
-            stale_memo[di] = (isinstance(e1, list) and isinstance(e2, list) and mask(e1) == mask(e2)
-                              and any('cannot substitute' in e and e not in e2 for e in e1))
-        return stale_memo[di] and r == apply_op(xmlschema, preloaded(), op, docs[di], arg)
+            same = isinstance(e1, list) and isinstance(e2, list) and mask(e1) == mask(e2)
+            stale_memo[di] = (same, same and any('cannot substitute' in e and e not in e2 for e in e1))
+        same, refused = stale_memo[di]
+        # to_objects() encodes the decoded objects after the validation pass: their bindings are the old components even
+        # when no xsi:type was refused during the pass itself
+        return (refused or (same and op == 'to_objects')) and r == apply_op(xmlschema, preloaded(), op, docs[di], arg)
 
     def run(history, record=False):
         used = make_schema(xmlschema, case['version'])
